@@ -311,12 +311,33 @@ class Sym:
         return Sym(c=_F0)
 
 
+def _exact_root(v, k):
+    """Exact k-th root of a non-negative Fraction if it is rational, else None."""
+    import math
+    if v < 0:
+        return None
+
+    def iroot(n):
+        if k == 2:
+            r = math.isqrt(n)
+        else:
+            r = round(n ** (1.0 / k))
+            while r ** k > n:
+                r -= 1
+            while (r + 1) ** k <= n:
+                r += 1
+        return r if r ** k == n else None
+    a, b = iroot(v.numerator), iroot(v.denominator)
+    if a is None or b is None:
+        return None
+    return Fr(a, b)
+
+
 def root(s, k):
     if s.c is not None:
-        v = s.c
-        for cand in (Fr(round(float(v) ** (1.0 / k) * 10 ** 6), 10 ** 6).limit_denominator(10 ** 4),):
-            if cand ** k == v:
-                return Sym(c=cand)
+        r = _exact_root(s.c, k)
+        if r is not None:
+            return Sym(c=r)
     if Ctx.cur is None:
         raise RuntimeError('root of a symbolic value outside an explorer')
     return Ctx.cur.root(s, k)
